@@ -1,5 +1,5 @@
 (* CoreLoop.v -- C03: why the blocking loop returns; C08: the message pipe is consumed from its head. *)
-From LM Require Import Base CoreTypes CoreModel CoreExec CoreInv.
+From LM Require Import Base CoreTypes CoreModel CoreExec CoreLocal4 CoreInv.
 From Coq Require Import Lia.
 
 Section Loop.
@@ -103,9 +103,96 @@ Section Loop.
   Theorem ctx_deregister_releases w c f : the_ctx w = Some c -> c_state c = CIdle ->
     w_tls (fst (ctx_deregister w f)) = None /\ snd (ctx_deregister w f) = 0%Z.
   Proof. intros Hc Hs. unfold ctx_deregister. rewrite Hc, Hs. lazy zeta. apply release_tail. Qed.
+
+  (* ---------- C01: the running counter moves with the state, by exactly one ---------- *)
+  Lemma tls_hunref w o : w_tls (hunref w o) = w_tls w. Proof. apply tls_hunref_loop. Qed.
+  Lemma tls_href_opt w o : w_tls (href_opt w o) = w_tls w.
+  Proof. destruct o; [|reflexivity]. unfold href_opt, href. destruct (nth_error (w_heap w) o); [destruct (Nat.eqb _ 0)|]; reflexivity. Qed.
+  Lemma tls_tell_copy w r send sys sender topic data sub pill dref : w_tls (tell_copy sc w r send sys sender topic data sub pill dref) = w_tls w.
+  Proof.
+    unfold tell_copy. destruct (get_mod w r) as [rr|]; [|reflexivity]. destruct (state_in _ _); [|reflexivity].
+    match goal with |- context [halloc ?a ?b ?c ?d] => destruct (halloc a b c d) as [w2 o] eqn:E2 end.
+    assert (T2 : w_tls w2 = w_tls w) by (unfold halloc in E2; injection E2 as <- _; cbn [w_tls set_heap]; rewrite !tls_href_opt; reflexivity).
+    destruct (fresh w2) as [w3 gid] eqn:E3. assert (T3 : w_tls w3 = w_tls w) by (unfold fresh in E3; injection E3 as <- _; cbn; exact T2).
+    destruct (m_pipe rr); [destruct (Nat.ltb _ _)|]; rewrite ?tls_hunref; exact T3.
+  Qed.
+  Lemma tls_fold {A} (f : world -> A -> world) l : (forall w a, w_tls (f w a) = w_tls w) -> forall w, w_tls (fold_left f l w) = w_tls w.
+  Proof. intros Hf. induction l as [|a l IH]; intros w; cbn [fold_left]; [reflexivity|]. rewrite IH, Hf. reflexivity. Qed.
+  Lemma tls_deliver w rcp sys sender topic data pill dref : w_tls (deliver sc w rcp sys sender topic data pill dref) = w_tls w.
+  Proof.
+    unfold deliver. destruct (fresh w) as [w0 send] eqn:Ef. assert (T0 : w_tls w0 = w_tls w) by (unfold fresh in Ef; injection Ef as <- _; reflexivity).
+    destruct rcp as [r|]; [rewrite tls_tell_copy; exact T0|]. destruct topic as [t|].
+    - rewrite tls_fold; [exact T0|]. intros w1 r. destruct (get_mod w1 r) as [rr|]; [|reflexivity]. destruct (state_in _ _); [|reflexivity].
+      destruct (fetch_sub sc w1 rr t); [apply tls_tell_copy|reflexivity].
+    - rewrite tls_fold; [exact T0|]. intros w1 r. apply tls_tell_copy.
+  Qed.
+  Lemma tls_tell_system w rcp sender topic pill : w_tls (tell_system sc w rcp sender topic pill) = w_tls w.
+  Proof. unfold tell_system. rewrite tls_deliver. destruct sender as [s|]; [destruct (get_mod w s)|]; reflexivity. Qed.
+  Lemma tls_poll_rm w i : w_tls (poll_rm w i) = w_tls w.
+  Proof. unfold poll_rm. destruct (get_src w i) as [sr|]; [|reflexivity]. destruct (s_armed sr); [|reflexivity]. destruct (_ && _), (opens_fd (s_kind sr)); reflexivity. Qed.
+  Lemma tls_poll_add w i : w_tls (poll_add w i) = w_tls w.
+  Proof. unfold poll_add. destruct (get_src w i) as [sr|]; [|reflexivity]. destruct (opens_fd (s_kind sr)); reflexivity. Qed.
+
+  (* pausing a RUNNING module takes exactly one off the counter; pausing anything else (refused earlier by the state guard) none *)
+  Theorem pause_moves_running_count w m mr c :
+    get_mod w m = Some mr -> w_tls w = Some c ->
+    w_tls (fst (stop_mod sc run_cb w m false)) =
+      Some (if mstate_eqb (m_state mr) MRunning then ctx_with_running (c_running c - 1) c else c).
+  Proof.
+    intros Hm Hc. rewrite (pause_notifies_once sc run_cb w m mr Hm). cbn [fst].
+    rewrite tls_tell_system. unfold upd_mod, set_mods; cbn [w_tls].
+    assert (Tf : w_tls (fold_left poll_rm (m_srcs mr) w) = Some c) by (rewrite tls_fold; [exact Hc|apply tls_poll_rm]).
+    destruct (mstate_eqb (m_state mr) MRunning); [|exact Tf]. unfold upd_ctx. rewrite Tf. reflexivity.
+  Qed.
+
+  (* resuming puts exactly one back *)
+  Theorem resume_moves_running_count w m mr c :
+    get_mod w m = Some mr -> w_tls w = Some c ->
+    w_tls (fst (start_mod sc run_cb w m false)) = Some (ctx_with_running (S (c_running c)) c).
+  Proof.
+    intros Hm Hc. unfold start_mod. rewrite Hm. cbv beta iota zeta. change (negb (0 =? 0)%Z) with false. cbv iota.
+    change (0 =? 0)%Z with true. cbv iota. cbn [fst]. rewrite tls_tell_system. unfold upd_ctx.
+    assert (Tf : w_tls (upd_mod (fold_left poll_add (m_srcs mr) w) m (mod_with_state MRunning)) = Some c).
+    { unfold upd_mod, set_mods; cbn [w_tls]. rewrite tls_fold; [exact Hc|apply tls_poll_add]. }
+    rewrite Tf. reflexivity.
+  Qed.
+
+  (* ---------- C08: a poison pill first hands over what was batched before it, then stops its recipient ---------- *)
+  Theorem pill_delivers_batch_before_stopping w i s m mr g q :
+    get_src w i = Some s -> s_armed s = true -> s_mod s = Some m -> s_kind s = KPs ->
+    get_mod w m = Some mr -> m_pipe mr = Some (g :: q) -> g_pill g = true -> g_sub g = None ->
+    exists w4 e,
+      (exists mr4, get_mod w4 m = Some mr4 /\ m_pipe mr4 = Some q /\ m_batch mr4 = m_batch mr) /\        (* the pill has left the pipe, the batch is untouched *)
+      let w5 := lock_mod w4 m in
+      let w6 := match get_mod w5 m with
+                | Some mr5 => call_pubsub_cb run_cb (upd_mod w5 m (mod_with_batch (m_batch_len mr5) (m_batch_tmr mr5) [])) m (m_batch mr5)
+                | None => w5 end in                                                                         (* 1. everything batched so far is handed over *)
+      let w7 := match get_mod w6 m with
+                | Some mr6 => if mstate_eqb (m_state mr6) MRunning then fst (stop_mod sc run_cb w6 m true) else w6
+                | None => w6 end in                                                                         (* 2. only then the module is stopped *)
+      process_one sc run_cb w i = (hunref (unlock_mod w7 m) (e_obj e), 1).
+  Proof.
+    intros Hs Ha Hm Hk Hg Hp Hpill Hsub. unfold process_one. rewrite Hs, Ha, Hm, Hg. cbn [negb]. lazy zeta. rewrite Hk, Hp, Hsub, Hpill.
+    match goal with |- context [make_evt ?a ?b ?c ?d ?e] => destruct (make_evt a b c d e) as [w3 e3] eqn:Em end.
+    exists w3, e3. split; [|reflexivity].
+    unfold make_evt, halloc, fresh in Em. cbv beta iota zeta in Em. injection Em as <- <-.
+    unfold get_mod, href_opt, src_obj, upd_mod, upd_src, set_mods, set_srcs, set_errno, set_heap; cbn [w_mods fst].
+    unfold get_mod in Hg. rewrite (nth_upd_same _ _ _ _ Hg). eexists. split; [reflexivity|]. split; reflexivity.
+  Qed.
+
+  (* ---------- C19: the loop announces its start and its stop exactly once each ---------- *)
+  Theorem loop_start_notifies_once w :
+    exists w2, fst (loop_start sc run_cb w) =
+      (let w3 := tell_system sc w2 None None tCTX_STARTED false in
+       match w_tls w3 with Some c => match c_tick c with Some t => poll_add w3 t | None => w3 end | None => w3 end).
+  Proof. unfold loop_start. cbn [fst]. eexists. reflexivity. Qed.
 End Loop.
 Print Assumptions loop_returns_for_a_reason.
 Print Assumptions process_one_takes_pipe_head.
 Print Assumptions evaluate_idle_without_hook_starts.
 Print Assumptions evaluate_idle_cases.
 Print Assumptions ctx_deregister_releases.
+Print Assumptions pause_moves_running_count.
+Print Assumptions resume_moves_running_count.
+Print Assumptions pill_delivers_batch_before_stopping.
+Print Assumptions loop_start_notifies_once.
